@@ -171,6 +171,12 @@ type artifactSpec struct {
 	IndexVer     int64
 	ExtraNames   []string // further connectors (same artifact) so that other names resolve
 	OlderVersion string   // when set, the primary connector also lists this older version (same artifact)
+	Proc         *procSpec
+}
+
+type procSpec struct {
+	Name, Version, URL, SHA256, SigURL string
+	Size                               int64
 }
 
 func buildPayload(a artifactSpec) index.Payload {
@@ -199,6 +205,17 @@ func buildPayload(a artifactSpec) index.Payload {
 		SchemaVersion: 1,
 		Index:         index.IndexMeta{Version: a.IndexVer, Timestamp: time.Now().UTC().Truncate(time.Second)},
 		Connectors:    []index.Connector{mk(a.Name)},
+	}
+	if a.Proc != nil {
+		p.Processors = []index.Processor{{
+			Name:      a.Proc.Name,
+			Publisher: p.Connectors[0].Publisher,
+			Versions: []index.ProcessorVersion{{
+				Version: a.Proc.Version, MinConduitVersion: "0.1.0", MinProtocolVersion: "0.1.0",
+				Artifact: index.Artifact{OS: "wasip1", Arch: "wasm", Kind: registry.WASMProcessorArtifactKind, URL: a.Proc.URL, SHA256: a.Proc.SHA256, Size: a.Proc.Size,
+					Signature: index.SignatureRef{BundleURL: a.Proc.SigURL}},
+			}},
+		}}
 	}
 	if a.OlderVersion != "" {
 		old := p.Connectors[0].Versions[0]
